@@ -199,10 +199,10 @@ pub fn random_variant(rng: &mut Rng, with_dom: bool) -> Variant {
 }
 
 pub fn random_spec(rng: &mut Rng, p: &Profile) -> CaseSpec {
-    use crate::models::{kmodel::*, pmodel::*, tmodel::*};
-    let fam = if p.long_arcs_only { if rng.chance(1, 2) { 'T' } else { 'P' } }
+    use crate::models::{kmodel::*, pmodel::*, qmodel::*, tmodel::*};
+    let fam = if p.long_arcs_only { match rng.below(5) { 0 | 1 => 'T', 2 | 3 => 'P', _ => 'Q' } }
         else if p.only_all_impacted { if rng.chance(2, 3) { 'T' } else { 'K' } }
-        else { match rng.below(10) { 0..=4 => 'T', 5 | 6 => 'K', _ => 'P' } };
+        else { match rng.below(11) { 0..=4 => 'T', 5 | 6 => 'K', 7..=9 => 'P', _ => 'Q' } };
     let size = match fam {
         'T' => {
             let mut s = if p.small && rng.chance(1, 2) { SZ_SMALL } else { SZ_TINY };
@@ -216,6 +216,7 @@ pub fn random_spec(rng: &mut Rng, p: &Profile) -> CaseSpec {
             if rng.chance(1, 5) { s |= F_ABSORBING; }
             s
         }
+        'Q' => if p.small && rng.chance(1, 2) { QSZ_SMALL } else { QSZ_TINY },
         'K' => if p.reconvergent { KSZ_FEWWEIGHTS } else if p.small && rng.chance(1, 2) { KSZ_SMALL } else { *rng.pick(&[KSZ_TINY, KSZ_TINY, KSZ_FEWWEIGHTS]) },
         _ => if p.reconvergent { PSZ_SPARSE } else if p.small && rng.chance(1, 2) { PSZ_SMALL } else { *rng.pick(&[PSZ_TINY, PSZ_TINY, PSZ_SPARSE]) },
     };
@@ -240,6 +241,7 @@ macro_rules! with_family {
         match $fam {
             'T' => $f::<$crate::models::tmodel::TInst>($($args),*),
             'K' => $f::<$crate::models::kmodel::KInst>($($args),*),
+            'Q' => $f::<$crate::models::qmodel::QInst>($($args),*),
             _ => $f::<$crate::models::pmodel::PInst>($($args),*),
         }
     };
